@@ -72,7 +72,7 @@ CHECKS = {
              "(C05_layer_of_member/nonmember). Proof: lowering to a strict module rule (C01's query characterisations), then the four lenient buckets, same-layer pairs dropped everywhere. "
              "Tie to /repo: random graphs x partitions into 2-4 layers (list / str / anchored regex; modules in no layer) x 14 shapes through the real LayeredArchitecture/LayerRule API vs the model "
              "(verdict + parsed report lines with layer tags) and vs an independent python reading of the documented semantics.",
-        note="The two any-layer aliases are covered by correspondence and the python oracle (the alias rewrite is C12_alias); a layer given by a regex is additionally compared with the same layer given by naming the matched modules, for both aliases - open known finding K3b (known_findings.json): they differ when the regex matches a module together with its own sub modules (the layer form of K3). Hypothesis lwf: listed (resolved) modules pairwise unrelated and existing, "
+        note="C05_loops_verdict: the layer rule evaluated over the transcribed worklist loops (Model/WLayer.v) terminates and has the same outcome for every builder history; the harness evaluates every layer case in both model forms (fn 16 / fn 35). The two any-layer aliases are covered by correspondence and the python oracle (the alias rewrite is C12_alias); a layer given by a regex is additionally compared with the same layer given by naming the matched modules, for both aliases - open known finding K3b (known_findings.json): they differ when the regex matches a module together with its own sub modules (the layer form of K3). Hypothesis lwf: listed (resolved) modules pairwise unrelated and existing, "
              "layer names distinct, object layers non-empty and different from the subject. Trusted: Coq kernel, extraction, driver, harness.",
         technique="Coq proof (reduction to strict module rule + bucket analysis) + model/implementation correspondence",
         design="5/C05"),
@@ -137,7 +137,7 @@ CHECKS = {
         text="Theorem C07_conformance (Coq, every graph, every well-formed diagram, both modes): DiagramRule passes exactly when for every ordered pair of distinct components a imports b iff a->b is drawn, and (should-only) no component "
              "with outgoing arrows imports anything outside its drawn targets and itself - proved by showing each generated rule strict and applying C01_verdict; C07_aggregates (all violated rules' lines, none lost); C07_base_module (definitional). "
              "Tie to /repo: random relations x near-conforming graphs x both modes x both naming options on real .puml files vs documented conformance (python oracle), aggregated message vs each violated pairwise rule, model compared.",
-        note="Trusted: Coq kernel, extraction, driver, harness. Depends on C01's search model (comprehensions, proved equal to the worklist loops).",
+        note="C07_loops_verdict: the diagram rule with every generated rule evaluated over the transcribed worklist loops (Model/WDiagram.v) terminates and has the same outcome; every diagram case is evaluated in both model forms (fn 22 / fn 36). Trusted: Coq kernel, extraction, driver, harness.",
         technique="Coq proof (reduction to C01 per generated rule) + correspondence on real diagram files",
         design="5/C07"),
     "C09": dict(
